@@ -53,6 +53,8 @@ MUTANTS = [
         return rtask;""")]),
     dict(name='c17-seed2-foreign-free-skips-object-start', prop='C17', clause='D1', edits=[(FE_CPP, """        FreeObject *objectToFree = block->findObjectToFree(object);
         block->freePublicObject(objectToFree);""", """        block->freePublicObject(static_cast<FreeObject*>(object));""")]),
+    dict(name='c19-seed5-table-swapped-without-its-key', prop='C19', clause='D5', edits=[('include/oneapi/tbb/enumerable_thread_specific.h', '       using std::swap;\n       __TBB_ASSERT(this!=&other, "Don\'t swap an instance with itself");\n       swap(my_key, other.my_key);\n       super::table_swap(other);', '       __TBB_ASSERT(this!=&other, "Don\'t swap an instance with itself");\n       super::table_swap(other);')]),
+    dict(name='c19-table-swapped-without-its-count', prop='C19', clause='D5', edits=[('include/oneapi/tbb/enumerable_thread_specific.h', '       swap_atomics_relaxed(my_count, other.my_count);\n', '')]),
     dict(name='c19-seed2-ets-array-sized-from-root', prop='C19', clause='D5', edits=[('include/oneapi/tbb/enumerable_thread_specific.h',
         "            std::size_t s = r ? r->lg_size : 2;\n            while( c > std::size_t(1)<<(s-1) ) ++s;", "            std::size_t s = r ? r->lg_size + 1 : 2;")]),
     dict(name='c10-seed2-stale-prev-after-upgrade', prop='C10', clause='D1', edits=[(CHM_H, """            bucket_accessor b( this, hash & mask );
@@ -1644,6 +1646,7 @@ MUTANTS += [
 ]
 
 BENIGN = [
+    dict(name='c19-b-key-swapped-by-hand', prop='C19', edits=[('include/oneapi/tbb/enumerable_thread_specific.h', '       using std::swap;\n       __TBB_ASSERT(this!=&other, "Don\'t swap an instance with itself");\n       swap(my_key, other.my_key);\n       super::table_swap(other);', '       __TBB_ASSERT(this!=&other, "Don\'t swap an instance with itself");\n       tls_key_t k = my_key;\n       my_key = other.my_key;\n       other.my_key = k;\n       super::table_swap(other);')]),
     dict(name='c20-b-fifo-gate-through-a-local', prop='C20', edits=[(TDH, '    bool stealing_is_allowed = can_steal();\n', '    bool stealing_is_allowed = can_steal();\n    const bool streams_allowed = isolation == no_isolation;\n'), (TDH, '        else if (fifo_allowed && isolation == no_isolation\n                 && (t = get_stream_or_critical_task(ed, a, fifo_stream, fifo_hint, isolation, critical_allowed))) {', '        else if (streams_allowed && fifo_allowed\n                 && (t = get_stream_or_critical_task(ed, a, fifo_stream, fifo_hint, isolation, critical_allowed))) {')]),
     dict(name='c16-b-fifo-gate-through-a-local', prop='C16', edits=[(TDH, '    bool stealing_is_allowed = can_steal();\n', '    bool stealing_is_allowed = can_steal();\n    const bool streams_allowed = isolation == no_isolation;\n'), (TDH, '        else if (fifo_allowed && isolation == no_isolation\n                 && (t = get_stream_or_critical_task(ed, a, fifo_stream, fifo_hint, isolation, critical_allowed))) {', '        else if (streams_allowed && fifo_allowed\n                 && (t = get_stream_or_critical_task(ed, a, fifo_stream, fifo_hint, isolation, critical_allowed))) {')]),
     # known findings must stay matched when unrelated lines move
